@@ -7,7 +7,8 @@
    sap.pending_nets {dnet: [npdu, ...]}                     npending  (association list dnet -> tags of the parked requests)
 
    NetworkServiceAccessPoint.indication, remote destination      node_req
-   NetworkServiceElement.IAmRouterToNetwork                      node_iam   (record, [relay: not modelled], release pending)
+   NetworkServiceElement.IAmRouterToNetwork                      node_iam   (record, release pending); node_iam_full (record, relay, release)
+   NetworkServiceElement.WhoIsRouterToNetwork (one network)      node_whois
    NetworkServiceAccessPoint.process_npdu, SADR + forwarding     node_fwd
    NetworkServiceElement.NetworkNumberIs (learned number)        node_renum
    Emissions: application data with a DADR handed to a next-hop router, and Who-Is-Router broadcasts. *)
@@ -16,7 +17,10 @@ Open Scope Z_scope.
 
 Inductive emission :=
 | Send (sn a d tag : Z) (sadr : option Z)      (* on attached net sn, to router a, DADR = (d, _), payload tag *)
-| WhoIs (sn d : Z).                            (* Who-Is-Router-To-Network d, broadcast on attached net sn *)
+| WhoIs (sn d : Z)                             (* Who-Is-Router-To-Network d, broadcast on attached net sn *)
+| IAmR (sn : Z) (dest : option Z) (ds : list Z)  (* I-Am-Router-To-Network ds put on attached net sn by THIS node:
+                                                  to station dest, or broadcast (None) *)
+| WhoIsFwd (sn d snet smac : Z).               (* Who-Is-Router-To-Network d relayed on attached net sn with SADR (snet, smac) *)
 
 Record node := mkN { ncache : cache; nadapters : list Z; npending : list (Z * list Z) }.
 
@@ -82,7 +86,37 @@ Definition node_renum (n : node) (old new : Z) : res node :=
   | Ok c' => Ok (mkN c' (filter (fun sn => negb (sn =? old)) (nadapters n) ++ [new]) (npending n))
   end.
 
+(* IAmRouterToNetwork, `for xadapter in sap.adapters.values(): if xadapter is not adapter: self.request(xadapter, iamrtn)`:
+   the announcement heard on net sn is repeated as a broadcast on every other adapter (not when the node has
+   a single adapter) - AFTER it was recorded, BEFORE parked requests are released *)
+Definition iam_relay (n : node) (sn : Z) (ds : list Z) : list emission :=
+  if (length (nadapters n) <=? 1)%nat then []
+  else map (fun x => IAmR x None ds) (filter (fun x => negb (x =? sn)) (nadapters n)).
+
+Definition node_iam_full (n : node) (sn a : Z) (ds : list Z) : res node * list emission :=
+  match node_iam n sn a ds with
+  | (Ok n', out) => (Ok n', iam_relay n sn ds ++ out)
+  | (Err e, out) => (Err e, out)
+  end.
+
+(* NetworkServiceElement.WhoIsRouterToNetwork for one network d, asked by station a on the adapter of net
+   arr, no SADR on the request: a node with one adapter stays silent; a directly connected d is claimed
+   unless it is the arrival network; otherwise the adapters are asked in dict order (the same look-up as
+   for traffic): a next hop on ANOTHER adapter -> I-Am-Router-To-Network [d] to the asker; a next hop on the
+   arrival adapter -> silence ("same network"); nothing known -> the question is relayed on every other
+   adapter with the asker as SADR (unless the arrival network has no number yet).  The cache and the parked
+   requests are not touched. *)
+Definition node_whois (n : node) (arr a d : Z) : list emission :=
+  if (length (nadapters n) <=? 1)%nat then []
+  else if zmem d (nadapters n) then (if d =? arr then [] else [IAmR arr (Some a) [d]])
+  else match route n d with
+       | Some (sn, _) => if sn =? arr then [] else [IAmR arr (Some a) [d]]
+       | None => if arr =? -1 then []      (* arrival network not numbered yet: no SADR can be formed, not relayed (fix:) *)
+                 else map (fun sn => WhoIsFwd sn d arr a) (filter (fun sn => negb (sn =? arr)) (nadapters n))
+       end.
+
 Inductive nstep :=
+| NWhoIs (arr a d : Z)
 | NReq (d tag : Z)
 | NIAm (sn a : Z) (ds : list Z)
 | NFwd (arr a snet d : Z)
@@ -94,7 +128,8 @@ Definition keep (n : node) (r : res node) : node := match r with Ok n' => n' | E
 Definition node_step (n : node) (s : nstep) : node * list emission :=
   match s with
   | NReq d tag => node_req n d tag
-  | NIAm sn a ds => let (r, out) := node_iam n sn a ds in (keep n r, out)
+  | NWhoIs arr a d => (n, node_whois n arr a d)
+  | NIAm sn a ds => let (r, out) := node_iam_full n sn a ds in (keep n r, out)
   | NFwd arr a snet d => let (r, out) := node_fwd n arr a snet d in (keep n r, out)
   | NOps h => (mkN (run (ncache n) h) (nadapters n) (npending n), [])
   | NRenum old new => (keep n (node_renum n old new), [])
@@ -104,6 +139,8 @@ Definition canon_emission (e : emission) : list Z :=
   match e with
   | Send sn a d tag sadr => [1; sn; a; d; tag; oz1 sadr]
   | WhoIs sn d => [2; sn; d]
+  | IAmR sn dest ds => 3 :: sn :: oz1 dest :: zlen ds :: ds
+  | WhoIsFwd sn d snet smac => [4; sn; d; snet; smac]
   end.
 
 (* per step: the emissions in order, the parked tags per destination, the cache *)
